@@ -28,12 +28,12 @@ func c03LoopShape(c *core.Ctx, f *core.Func) (outer, inner, own bool) {
 				in, ok := m.(*ast.ForStmt)
 				if ok && in.Cond != nil {
 					ic := core.Src(c.Prog.Fset, in.Cond)
-					if strings.HasSuffix(ic, "< "+iv) && strings.Contains(core.Src(c.Prog.Fset, in.Body), "stratumEdbPredicates") {
+					if strings.HasSuffix(ic, "< "+iv) && strings.Contains(core.SrcFull(c.Prog.Fset, in.Body), "stratumEdbPredicates") {
 						inner = true
 					}
 				}
 				if rs, ok := m.(*ast.RangeStmt); ok {
-					if strings.HasSuffix(core.Src(c.Prog.Fset, rs.X), "Strata["+iv+"]") && strings.Contains(core.Src(c.Prog.Fset, rs.Body), "stratumIdbPredicates") {
+					if strings.HasSuffix(core.Src(c.Prog.Fset, rs.X), "Strata["+iv+"]") && strings.Contains(core.SrcFull(c.Prog.Fset, rs.Body), "stratumIdbPredicates") {
 						own = true
 					}
 				}
